@@ -19,6 +19,19 @@ from spec_classes.utils.weakref_cache import WeakRefCache
 from .types import MISSING, Attr
 
 
+def _copy_attr_spec(attr_spec: Attr) -> Attr:
+    """
+    A copy of `attr_spec` to be adapted for a subclass. Derived values that the
+    original has cached (some are bound to the original, e.g. its collection
+    mutator factory) are dropped so that the copy derives its own.
+    """
+    new = copy.copy(attr_spec)
+    for name, member in vars(type(attr_spec)).items():
+        if isinstance(member, cached_property):
+            new.__dict__.pop(name, None)
+    return new
+
+
 @dataclass_transform()
 class spec_class:
     """
@@ -377,7 +390,7 @@ class spec_class:
                         # The specification is shared with the parent class, which
                         # must keep its own helper names; work on a copy, and
                         # (below) give this class element helpers under the new name.
-                        attr_spec = metadata.attrs[attr] = copy.copy(attr_spec)
+                        attr_spec = metadata.attrs[attr] = _copy_attr_spec(attr_spec)
                         renamed_inherited.append(attr_spec)
                     attr_spec.item_name = f"{attr}_item"
                     # The item preparer was looked up under the colliding name
@@ -468,7 +481,7 @@ class spec_class:
             # copy behaviour of an inherited attribute keeps the remainder of
             # its specification (default factory, init/repr/compare,
             # invalidated_by, ...).
-            attr_spec = copy.copy(inherited)
+            attr_spec = _copy_attr_spec(inherited)
             if attr in spec_cls.__dict__:
                 attr_spec.default = attr_value
                 attr_spec.default_factory = MISSING
